@@ -2,6 +2,7 @@ package rules
 
 import (
 	"fmt"
+	"golang.org/x/tools/go/ssa"
 	"strings"
 
 	"mtverif/internal/core"
@@ -118,6 +119,47 @@ var ruleAliases = &core.Rule{ID: "R15.2", Min: 60,
 				s.Check(ok, fmt.Sprintf("alias %s of %s", a, n.Name), c.Pos(n.AliasPos[i]), "token grammar", fmt.Sprintf("%q: %s", a, why))
 			}
 		}
+		// the method that registers them keeps all of them: a store of a []string parameter into the receiver's alias
+		// field stores the parameter itself, not a part of it
+		for _, f := range c.SrcFuncs() {
+			if f.Signature.Recv() == nil || len(f.Params) < 2 {
+				continue
+			}
+			for _, b := range f.Blocks {
+				for _, in := range b.Instrs {
+					st, ok := in.(*ssa.Store)
+					if !ok {
+						continue
+					}
+					fa, ok := st.Addr.(*ssa.FieldAddr)
+					if !ok || fa.Field != m.FAliases || fa.X != ssa.Value(f.Params[0]) {
+						continue
+					}
+					v := st.Val
+					part := false
+					for d := 0; d < 3; d++ {
+						if sl, ok := v.(*ssa.Slice); ok {
+							if sl.Low != nil && !core.IsConstInt(sl.Low, 0) || sl.High != nil {
+								part = true
+							}
+							v = sl.X
+							continue
+						}
+						break
+					}
+					isParam := false
+					for _, p := range f.Params[1:] {
+						if v == ssa.Value(p) {
+							isParam = true
+						}
+					}
+					if !isParam {
+						continue
+					}
+					s.Check(!part, core.FName(f)+": registers every alias it is given", c.Pos(st.Pos()), "the parameter as a whole", "only a part of the alias list given to "+f.Name()+" is stored: the aliases left out are not found by Lookup and are not answered by Is")
+				}
+			}
+		}
 	}}
 
 func one(c *core.Ctx, s *core.Sink, m *tree.Model, mime string) *tree.Node {
@@ -197,5 +239,16 @@ var ruleJSONNodes = &core.Rule{ID: "R10.3", Min: 5,
 		if idx[0] >= 0 && idx[1] >= 0 && idx[2] >= 0 {
 			s.Check(idx[0] < idx[1] && idx[1] < idx[2], "json children order geo<har<gltf", c.Pos(js.Pos), fmt.Sprint(idx),
 				fmt.Sprintf("order of geo/har/gltf among json's children is %v; the property fixes GeoJSON, then HAR, then glTF", idx))
+		}
+		// among the text formats the record-oriented detectors come after JSON: a JSON document written over several lines
+		// with the same number of commas in each also satisfies the CSV detector (and one value per line the NDJSON one)
+		ji := childIndex(t, js)
+		for _, later := range []string{"text/csv", "text/tab-separated-values", "application/x-ndjson"} {
+			for _, n := range m.Find(later) {
+				if li := childIndex(t, n); li >= 0 && ji >= 0 {
+					s.Check(ji < li, "json precedes "+later, c.Pos(n.Pos), fmt.Sprintf("positions %d < %d among the children of text/plain", ji, li),
+						fmt.Sprintf("%s is consulted before application/json (positions %d, %d among the children of text/plain): well-formed JSON spread over lines that happen to look like records is reported as %s", later, li, ji, later))
+				}
+			}
 		}
 	}}
